@@ -231,6 +231,10 @@ func runC14(c *core.Ctx) {
 				if xc == nil || x == in {
 					return
 				}
+				// handing the buffer to another read refills it, it does not forward its content
+				if (xc.IsInvoke() && (xc.Method.Name() == "Read" || xc.Method.Name() == "ReadAt")) || core.IsPkgFunc(x, "io", "ReadFull") || core.IsPkgFunc(x, "io", "ReadAtLeast") {
+					return
+				}
 				for _, a := range xc.Args {
 					if sl, ok := core.Unwrap(a).(*ssa.Slice); ok && sameBuf(sl.X, buf) && core.Dominates(in, x) {
 						if isPbytes(x, "Put") {
